@@ -396,10 +396,64 @@ def _ensure_refs_for(trace):
 # ------------------------------------------------------------------------------------------------
 
 
+FRESH_SNIPPET = """
+import sys, json, warnings
+sys.path[:0] = [{repo!r}, {verif!r}]
+warnings.simplefilter("ignore")
+from sim import common, seams
+common.configure({repo!r}, {verif!r})
+import iodata
+from checks import c16
+pool = c16.build_pool()
+out = {{}}
+for cid in {ids!r}:
+    call = pool[cid]
+    prep = c16.prepare_call(call)
+    disk = seams.SimDisk(log_events=False)
+    with seams.Installed(disk):
+        out[cid] = c16.exec_call(call, prep, disk, "")
+    break  # one call per fresh interpreter
+print("FRESH " + json.dumps(out))
+"""
+
+
+def fresh_crosscheck(pool, refs, ids):
+    """Validates the shortcut 'fresh interpreter = fork of a pristine process': each sampled call is executed
+    as the only call of a really fresh python and must give the reference record."""
+    import json
+    import subprocess
+    from concurrent.futures import ThreadPoolExecutor
+
+    def one(cid):
+        code = FRESH_SNIPPET.format(repo=common.REPO, verif=common.VERIF, ids=[cid])
+        env = {**os.environ, "PYTHONHASHSEED": "0", "PYTHONDONTWRITEBYTECODE": "1"}
+        cp = subprocess.run([sys.executable, "-c", code], capture_output=True, text=True, env=env, timeout=300)
+        for line in cp.stdout.splitlines():
+            if line.startswith("FRESH "):
+                return cid, json.loads(line[6:])[str(cid)]
+        raise RuntimeError(f"HARNESS: fresh interpreter for call {cid} failed: {cp.stderr[-400:]}")
+
+    bad = []
+    with ThreadPoolExecutor(8) as ex:
+        for cid, rec in ex.map(one, ids):
+            if json.loads(json.dumps(refs[cid])) != rec:
+                bad.append((cid, refs[cid], rec))
+    return bad
+
+
+FRESH_CHECKED = 0
+
+
 def plan(tier, seed, args):
-    global POOL, REFS
+    global POOL, REFS, FRESH_CHECKED
     POOL = build_pool()
     REFS = compute_refs(POOL)
+    rng = common.rng_for(seed, ID, "fresh")
+    ids = sorted(rng.sample(range(len(POOL)), 6 if tier == "quick" else 48))
+    bad = fresh_crosscheck(POOL, REFS, ids)
+    if bad:
+        raise RuntimeError(f"HARNESS: fork-of-pristine reference differs from a fresh interpreter for calls {bad[:2]}")
+    FRESH_CHECKED = len(ids)
     n = args.runs or (700 if tier == "quick" else 12000)
     return [{"run": i, "seed": seed, "tier": tier} for i in range(n)]
 
@@ -474,6 +528,7 @@ def shrink(trace, still_fails):
 def coverage_extra(stats, tier):
     return {
         "pool_size": len(POOL) if POOL else None,
+        "references_crosschecked_in_fresh_interpreters": FRESH_CHECKED,
         "distinct_interleavings": stats.distinct("schedules"),
         "distinct_call_pairs_in_histories": stats.distinct("call_pairs"),
         "simulated_time": "logical steps (LINE events inside iodata) = pre-emption points",
